@@ -18,7 +18,8 @@ import (
 
 type caseC05 struct {
 	Text    model.Text
-	Missing bool // the target file does not exist
+	Target  string `json:",omitempty"` // "" = the file; "dir" = a directory; "bookmark" = an unknown bookmark name
+	Missing bool   // the target file does not exist
 	Env     model.Env
 	Cmd     model.Cmd
 }
@@ -40,6 +41,7 @@ func genC05(t *rapid.T, _ *evid.Rec) caseC05 {
 	case 1:
 		c.Missing = true
 		text = ""
+		c.Target = rapid.SampledFrom([]string{"", "", "dir", "bookmark"}).Draw(t, "target")
 	case 2:
 		text = rapid.SampledFrom([]string{"\n", "  \n\t\n", " ", "\r\n\r\n"}).Draw(t, "blankFile")
 	case 3, 4, 5, 6:
@@ -80,6 +82,12 @@ func checkC05(c caseC05) (Outcome, error) {
 	h := newHarness(envTime(c.Env), envConfig(c.Env, ""))
 	defer h.Close()
 	file := h.Path("f.klg")
+	switch c.Target {
+	case "dir":
+		os.MkdirAll(file, 0o755)
+	case "bookmark":
+		file = "@no-such-bookmark"
+	}
 	old := gotime.Date(2001, 2, 3, 4, 5, 6, 0, gotime.UTC)
 	if !c.Missing {
 		h.WriteFile("f.klg", text)
@@ -116,9 +124,10 @@ func checkC05(c caseC05) (Outcome, error) {
 		return out, fmt.Errorf("klog %s failed with exit status 0", cmdString(c.Cmd))
 	}
 	if c.Missing {
-		if exists {
+		if exists && c.Target == "" {
 			return out, fmt.Errorf("klog %s failed but created the file: %s", cmdString(c.Cmd), quoteShort(after))
 		}
+		out.Label("failure-on-missing-target:" + c.Target)
 		out.NonTrivial = false
 		return out, nil
 	}
